@@ -126,7 +126,7 @@ func Harness_C02_C03_limits() {
 
 // C07/C01/C02: memory-pressure ejection through the worker's real sendEarly channel (the message
 // checkAlloc sends): up to 3 buffered traces with symbolic data sizes and impacts, symbolic share.
-func Harness_C01_C02_C07_eject() {
+func Harness_C07_eject() {
 	zz.MustCover("(*github.com/honeycombio/refinery/collect.CollectorWorker).sendTracesEarly",
 		"(*github.com/honeycombio/refinery/collect/cache.DefaultInMemCache).RemoveTraces",
 		"(*github.com/honeycombio/refinery/collect.CollectorWorker).makeDecision")
